@@ -76,17 +76,45 @@ def run(ctx):
                     continue   # one linear lookup has ~130 function entries; bound 2 over it is a thorough-tier item
                 js.append(Job("explorefn_%s_%s_N%d" % (layer, interp, n), SRC, FN + extra, ["VP_LAYER=" + layer], ["explore_fn", 2, cap, ctx.tier, "/%s/N%d/" % (interp, n)], timeout=1500,
                               key_prefix="explorefn_%s_%s_N%d" % (layer, interp, n)))
+    # cold-start exploration: every schedule in a freshly forked child (statics / lazily built tables in their initial state),
+    # scheduling points at every basic block of covfie code (-fsanitize-coverage=trace-pc)
+    BB = ["-O1", "-w", "-pthread", "-rdynamic", "-DVP_BB_POINTS", "-fsanitize-coverage=trace-pc"]
+    cold_bound, cold_cap = (2, 40000) if thorough else (1, 5000)
+    for layer, extra in LAYERS:
+        for n in ((2,) if layer == "L_hilbert" else (1, 2)):
+            js.append(Job("explorecold_%s_N%d" % (layer, n), SRC, BB + extra, ["VP_LAYER=" + layer], ["explore_cold", cold_bound, cold_cap, ctx.tier, "/N%d/" % n], timeout=1500,
+                          key_prefix="explorecold_%s_N%d" % (layer, n)))
+    for layer, extra in LAYERS:
+        for which in (("N2",) if layer == "L_hilbert" else ("N1", "N2", "N3")):
+            for T in ((4, 16) if thorough else (8,)):
+                js.append(Job("tsancold_%s_%s_T%d" % (layer, which, T), SRC, ["-O1", "-g", "-w", "-pthread", "-fsanitize=thread"] + extra, ["VP_LAYER=" + layer], ["free_cold", T, which], timeout=900,
+                              env={"TSAN_OPTIONS": "halt_on_error=1:exitcode=66:report_signal_unsafe=0"}, key_prefix="tsancold_" + layer, distinct=False))
     for layer, extra in LAYERS:
         for T in ((2, 3, 8, 16) if thorough else (2, 8)):
             js.append(Job("tsan_%s_T%d" % (layer, T), SRC, ["-O1", "-g", "-w", "-pthread", "-fsanitize=thread"] + extra, ["VP_LAYER=" + layer], ["free", T], timeout=900,
                           env={"TSAN_OPTIONS": "halt_on_error=1:exitcode=66:report_signal_unsafe=0"}, key_prefix="tsan_" + layer, distinct=False))
     # compile each distinct (src, flags, defines) once: the tsan jobs of one layer share a binary
+    for j in js:
+        if j.name.startswith("explore"):
+            j.env = dict(j.env or {}, VP_CONFIG_BUDGET_S="150" if thorough else "40")
     total = core.build_and_run(ctx, js)
     ex = {k: v for k, v in total.items()}
     scheds = int(sum(j.stats.get("traces", 0) for j in js if j.name.startswith("explore") and j.stats))
     points = int(sum(j.stats.get("transitions", 0) for j in js if j.name.startswith("explore") and j.stats))
     fn_scheds = int(sum(j.stats.get("traces", 0) for j in js if j.name.startswith("explorefn_") and j.stats))
+    cold_scheds = int(sum(j.stats.get("traces", 0) for j in js if j.name.startswith("explorecold_") and j.stats))
     capped = int(sum(j.stats.get("configs_capped", 0) for j in js if j.stats))
+    capped_names = []
+    import json as _json
+    for j in js:
+        for line in (j.stdout or "").splitlines():
+            if line.startswith("STAT "):
+                try:
+                    for smp in _json.loads(line[5:]).get("samples", []):
+                        if "CAPPED" in smp:
+                            capped_names.append(smp)
+                except Exception:
+                    pass
     if capped:
         ctx.capped = True
     ctx.level = "model_checking"
@@ -98,17 +126,19 @@ def run(ctx):
         "states": scheds, "transitions": points, "traces_validated_against_impl": scheds, "schedules": scheds, "scheduling_points": points,
         "evaluations": scheds, "distinct_nontrivial": int(total.get("distinct_nontrivial", 0)),
         "distinct_outcomes_per_program_max": total.get("distinct_outcomes_max"),
-        "configs_capped_at_max_schedules": capped, "preemption_bound": bound, "max_schedules_per_config": cap,
+        "configs_capped_at_max_schedules": capped, "capped_configs": capped_names[:40],
+        "completed_bounds": "every configuration not listed under capped_configs was enumerated completely within its stated preemption bound", "preemption_bound": bound, "max_schedules_per_config": cap,
         "samples": samples[:12] or ["(none)"],
         "rule": "real pthreads under a cooperative futex hand-off scheduler (exactly one runnable thread); scheduling point = every storage access of the probe backend (hook runs before the access) + one final segment per thread; "
                 "per (layer in strided/morton portable/morton BMI2/hilbert, interpolation in direct/nn/linear, N in 1..3, program, shared or per-thread views): ALL interleavings for the 2-thread programs "
                 "(e.g. C(18,9)=48620 for two 3-D linear lookups), preemption bound %d for the 3-thread programs (3 readers x 2 lookups; 2 readers + 1 writer storing to cells nobody else touches); every schedule runs to completion; "
                 "oracle per schedule: per-thread results == sequential run, final storage == sequential, no cell written by one thread and accessed by another, no out-of-bounds index; violating schedules are replayed twice before being reported; "
-                "a second exploration is built with -finstrument-functions so that every entry into a covfie function is a scheduling point too (programs in which one lookup primes per-view / static state and another thread's lookup falls in between; preemption bound 2); states = complete schedules executed, transitions = scheduling decisions taken; non-trivial = distinct (configuration, program) pairs; separately the same thread bodies run free under -fsanitize=thread with T in %s"
+                "a second exploration is built with -finstrument-functions so that every entry into a covfie function is a scheduling point too (programs in which one lookup primes per-view / static state and another thread's lookup falls in between; preemption bound 2); a third exploration runs every schedule in a freshly forked process with a scheduling point at every basic block of covfie code (-fsanitize-coverage=trace-pc), so that first-use state (function-local statics, lazily built tables) is interleaved from its initial state; expected values there come from the reference curves; states = complete schedules executed, transitions = scheduling decisions taken; non-trivial = distinct (configuration, program) pairs; separately the same thread bodies run free under -fsanitize=thread with T in %s"
                 % (bound, "2,3,8,16" if thorough else "2,8"),
         "schedules_with_function_entry_points": fn_scheds,
+        "coldstart_schedules_each_in_a_fresh_process": cold_scheds, "coldstart_preemption_bound": cold_bound,
         "static_state_inventory": inv,
-        "tsan_runs": [j.name for j in js if j.name.startswith("tsan_")],
+        "tsan_runs": [j.name for j in js if j.name.startswith("tsan")],
     })
     if inv and (inv["writable_or_unique_data_symbols_in_covfie"] or inv["tls"]):
         ctx.notes.append("covfie:: defines writable static data; accesses to it are not scheduling points, only the ThreadSanitizer pass can judge them")
